@@ -288,11 +288,11 @@ CHECKS["C06"] = {
     "pkg": "./c06/",
     "level": "exploration",
     "technique": ("stateful property-based testing (rapid state machine, ~60 operations per history) of queue.FanOutQueue / ConsumerGroup against an independent "
-                  "reference model + invariants after every step; real-goroutine consume-vs-ack stress variant (under -race in the thorough tier) with interleaving-independent oracle"),
+                  "reference model + invariants after every step; deterministic two-operation interleavings at the page stores of the first operation (linearizability oracle + reopen); real-goroutine consume-vs-ack stress variant (under -race in the thorough tier) with interleaving-independent oracle"),
     "rule": ("rapid state machine over queue.NewFanOutQueue with 1-4 consumer groups (names = node ids): append (self-describing messages 8 B..70 KB), consume (also the blocked "
              "consumer that is woken by the next append), ack inside / below / above [ack, consumed] and above appended, catch-up of one/all groups with different tails, "
              "SetConsumedSeq in [ack, appended], Sync, GC, Sync+GC (partition.IsExpire), create group / re-create stopped group, StopConsumerGroup of an empty group, Pause, "
-             "reopen (Close + NewFanOutQueue), forward SetAppendedSeq (also to just below an index-page boundary, so that index-page hand-over and page removal happen with small messages). "
+             "reopen (Close + NewFanOutQueue), forward SetAppendedSeq (also to just below an index-page boundary, so that index-page hand-over and page removal happen with small messages); pair = two operations of different roles on one group (consumer: Consume/SetConsumedSeq; acker: Ack in/above/below window; ticker: Sync+GC; appender: Put), the second started on its own goroutine inside meta-page store 0..2 of the first (harness-owned interleaving through the page-factory seam; it waits until the nested operation completed or is parked), only pairs whose two sequential orders both keep ack <= consumed <= appended; the result must equal one of the two sequential orders (positions, queue ack, appended, sequence handed out); a third of the pairs is followed by a reopen at once, and every reopen compares every persisted group position with the model. "
              "After every step: positions == model; per group ack <= consumed <= appended; queue ack forward only (outside a reset), <= appended, <= every ack the existing groups showed before "
              "the step in which it moved; every sequence in (queue ack, appended] readable byte for byte; Get beyond appended fails; Pending/IsEmpty/ConsumerGroupNames consistent. "
              "history non-trivial = (>= 2 groups with different acks at a GC that removed >= 1 page file) or (a reopen with some position != -1); TestGroupHistoryRollOver additionally needs a data-page roll-over "
@@ -301,12 +301,12 @@ CHECKS["C06"] = {
                    "a real index-page boundary), plus an unsystematic goroutine run for the 'schedules' half of the quantifier: appender, one consumer + one acker per group, Sync+GC ticker, observer; "
                    "its assertions hold under every interleaving, so it cannot raise false alarms."),
     "level_note": ("Trusted: tmpfs + MAP_SHARED (positions are in the file as soon as they are stored); process-crash recovery of the meta pages is C05/C07 territory. A brand-new group may start at -1/-1 "
-                   "(implementation) or at the queue ack (interface comment) - both accepted. Consume that would block forever is not called. Pre-emption at arbitrary instructions only via the stress variant."),
+                   "(implementation) or at the queue ack (interface comment) - both accepted. Consume that would block forever is not called. Pre-emption at arbitrary instructions only via the stress variant: the interleaving points of a pair are the meta-page stores only (PutUint64/Sync). Goroutine parking is detected from the scheduler state in runtime.Stack; a 2 s wall-clock limit exists for liveness only."),
     "assumptions": ["single appender (overlapping appends belong to C05)",
                     "SetConsumedSeq only with own ack <= seq <= appended (what replicator_local/remote pass)",
                     "FanOutQueue.SetAppendedSeq only forward (follower reset and leader reset are both forward) and only while no stopped group's meta is on disk",
                     "StopConsumerGroup only for a group that IsEmpty (partition.IsExpire)",
-                    "one acker goroutine per group (documented usage); ack values >= -1",
+                    "one acker goroutine per group (documented usage); ack values >= -1", "at most one consumer-role and one acker-role operation of a group in flight; two concurrent Acks of one group are not generated",
                     "a group further than 3000 sequences behind is not walked in the small-message machine"],
     "tests": [
         {"name": "TestGroupHistory", "quick": 3000, "thorough": {"checks": 12000, "shards": 14}},
